@@ -137,6 +137,49 @@ fn decode_stream(dec: &mut PeerCodec, bytes: &[u8], addpath_of: &dyn Fn(Family) 
 pub fn check(c: &Case) -> CheckResult {
     let (mut enc, mut dec) = codecs(&c.local, &c.remote);
     let msg = c.msg.build();
+    check_msg(&mut enc, &mut dec, c, &msg)
+}
+
+/// A session: several messages through ONE encoder and ONE decoder instance, with
+/// consecutive announcements sharing the same attribute allocation (as the daemon's
+/// transmit queue groups them) but differing in next hop / family / entries.
+#[derive(Clone, Debug, Serialize, Deserialize)]
+pub struct SeqCase {
+    pub local: CapSpec,
+    pub remote: CapSpec,
+    pub msgs: Vec<MsgSpec>,
+    pub share_attrs: bool,
+}
+
+pub fn check_seq(c: &SeqCase) -> CheckResult {
+    let (mut enc, mut dec) = codecs(&c.local, &c.remote);
+    let mut shared: Option<std::sync::Arc<Vec<packet::Attribute>>> = None;
+    let mut info = CaseInfo::trivial();
+    let mut reach_with_shared = 0;
+    for spec in &c.msgs {
+        let mut msg = spec.build();
+        if c.share_attrs
+            && let Message::Update(Update::Reach { attr, .. }) = &mut msg
+        {
+            match &shared {
+                None => shared = Some(attr.clone()),
+                Some(a) => {
+                    *attr = a.clone();
+                    reach_with_shared += 1;
+                }
+            }
+        }
+        let one = Case { local: c.local.clone(), remote: c.remote.clone(), msg: spec.clone() };
+        let i = check_msg(&mut enc, &mut dec, &one, &msg)?;
+        info.nontrivial |= i.nontrivial;
+        info.classes.extend(i.classes);
+    }
+    info.nontrivial |= reach_with_shared > 0;
+    Ok(info.class_if(reach_with_shared > 0, "shared-attr-allocation").class("sequence"))
+}
+
+fn check_msg(enc: &mut PeerCodec, dec: &mut PeerCodec, c: &Case, msg: &Message) -> CheckResult {
+    let msg = msg.clone();
     let max = enc.max_message_length();
     let mut info = CaseInfo::trivial();
 
@@ -203,7 +246,7 @@ pub fn check(c: &Case) -> CheckResult {
     let ap_of = |f: Family| dec.family_state(f).map(|s| s.addpath_rx).unwrap_or(false);
     let ap_snapshot: BTreeMap<u32, bool> = ALL_FAMILIES.iter().map(|f| (fam_u32(*f), ap_of(*f))).collect();
     let ap_fn = move |f: Family| ap_snapshot.get(&fam_u32(f)).copied().unwrap_or(false);
-    let (d1, msgs1) = decode_stream(&mut dec, &buf, &ap_fn).map_err(|f| f.with("family", family.map(family_name).unwrap_or("-")).with("msg", msg_kind(&c.msg)))?;
+    let (d1, msgs1) = decode_stream(dec, &buf, &ap_fn).map_err(|f| f.with("family", family.map(family_name).unwrap_or("-")).with("msg", msg_kind(&c.msg)))?;
     if d1.n_frames != frames.len() {
         return Err(Failure::new("framing", format!("walker sees {} frames, the peer decoded {}", frames.len(), d1.n_frames)).with("oversize", false).with("family", family.map(family_name).unwrap_or("-")).with("msg", msg_kind(&c.msg)).with("addpath", tx_addpath));
     }
@@ -446,6 +489,28 @@ pub fn arb_big_open() -> impl Strategy<Value = Case> {
     })
 }
 
+pub fn arb_seq(max_count: u16) -> impl Strategy<Value = SeqCase> {
+    (proptest::collection::vec(0u8..20, 1..3), arb_caps(3), arb_caps(3), prop_oneof![Just(0u8), Just(3u8)], prop_oneof![Just(0u8), Just(3u8)], any::<bool>())
+        .prop_flat_map(move |(fams, mut local, mut remote, lm, rm, share_attrs)| {
+            for fam in &fams {
+                local.families.retain(|(f, _)| fam_of(*f) != fam_of(*fam));
+                remote.families.retain(|(f, _)| fam_of(*f) != fam_of(*fam));
+                local.families.insert(0, (*fam, lm));
+                remote.families.insert(0, (*fam, rm));
+            }
+            let ext = |c: &CapSpec, f: u8| c.ext_nh.iter().any(|x| fam_of(*x) == fam_of(f));
+            let msgs: Vec<BoxedStrategy<MsgSpec>> = (0..4).map(|i| {
+                let fam = fams[i % fams.len()];
+                arb_msg_for(fam, ext(&local, fam) && ext(&remote, fam), max_count)
+            }).collect();
+            (Just(local), Just(remote), msgs, 2usize..5, Just(share_attrs))
+        })
+        .prop_map(|(local, remote, mut msgs, n, share_attrs)| {
+            msgs.truncate(n);
+            SeqCase { local, remote, msgs, share_attrs }
+        })
+}
+
 pub fn run(r: &Run) {
     r.set_rule(RULE);
     r.assume("attributes handed to the encoder are values the wire decoder or the API produces (ascending type order, ORIGIN and AS_PATH present on announcements)");
@@ -453,9 +518,14 @@ pub fn run(r: &Run) {
     r.assume("a labeled-unicast withdrawal is compared on its prefix (the label field of a withdrawal is ignored by receivers, RFC 8277)");
     r.prop("messages", r.tier.pick(40_000, 1_000_000), || arb_case(r.tier.pick(2500, 2500)), check);
     r.prop("big-open", r.tier.pick(4_000, 100_000), arb_big_open, check);
+    r.prop("sessions", r.tier.pick(20_000, 500_000), || arb_seq(40), check_seq);
 }
 
-pub fn replay(_sub: &str, case: &Value) -> Result<CheckResult, String> {
+pub fn replay(sub: &str, case: &Value) -> Result<CheckResult, String> {
+    if sub == "sessions" {
+        let c: SeqCase = decode_case(case)?;
+        return Ok(check_seq(&c));
+    }
     let c: Case = decode_case(case)?;
     Ok(check(&c))
 }
